@@ -194,6 +194,43 @@ def run(cx, rep):
             if base.get("type") == "Identifier" and base["value"] in roots and base["value"] not in ("ctx",) and T.mentions(base):
                 rep.ob("C03.4", "%s.%s/%s" % (cname, mname, what), False, "%s.%s mutates an input-derived object: %s" % (cname, mname, what), mod.loc(n))
     rep.ob("C03.4", "scan", True, sample={"methods_scanned": n_scan})
+    # ---------------------------------------------------------------- C03.6
+    rep.rule("C03.6", "the opaque-leaf predicate of deepmerge does not depend on the environment")
+    def disjuncts(e):
+        e = unparen(e)
+        if e.get("type") == "BinaryExpression" and e["operator"] == "||":
+            return disjuncts(e["left"]) + disjuncts(e["right"])
+        return [e]
+    n_pred = 0
+    for fname, fnode in mod.functions.items():
+        if not fname.startswith("deepmerge"):
+            continue
+        for n in walk(fnode):
+            if n["type"] != "ConditionalExpression":
+                continue
+            test = s(n["test"])
+            if "Buffer" not in test and "process" not in test and "globalThis" not in test and "window" not in test:
+                continue
+            def kinds(branch):
+                out = set()
+                for fn2 in [branch] if unparen(branch).get("type") not in ("ArrowFunctionExpression", "FunctionExpression") else [unparen(branch)["body"]]:
+                    for x in walk(fn2):
+                        if x["type"] == "BinaryExpression" and x["operator"] == "instanceof":
+                            out.add("instanceof " + s(x["right"]))
+                        if x["type"] == "CallExpression" and s(x["callee"]) in ("ArrayBuffer.isView", "Array.isArray"):
+                            out.add(s(x["callee"]))
+                        if x["type"] == "BinaryExpression" and unparen(x["left"]).get("type") == "UnaryExpression" and unparen(x["left"])["operator"] == "typeof":
+                            out.add("typeof" + x["operator"] + s(x["right"]))
+                return out
+            a, b = kinds(n["consequent"]), kinds(n["alternate"])
+            if not a and not b:
+                continue
+            n_pred += 1
+            diff = {k for k in (a ^ b) if "Buffer" not in k.replace("ArrayBuffer", "")}
+            rep.ob("C03.6", "%s/env-branches-agree" % fname, not diff,
+                   "%s: the two environment branches of a value-kind test differ in %s: a value kind is treated as an opaque leaf in one runtime and merged key by key in the other (typed arrays, Dates lose their kind in parse output)" % (fname, sorted(diff)),
+                   mod.loc(n), sample={"test": test, "then": sorted(a), "else": sorted(b)})
+    rep.floor("C03.6", "environment-dependent kind tests in deepmerge", n_pred, 1)
     # ---------------------------------------------------------------- C03.5
     rep.rule("C03.5", "objectKeyOrder branches agree on the declared-key membership test")
     for cname, mname, fn in ts_common.family_methods(fam, ("parseAfterValidation",)):
